@@ -13,6 +13,8 @@ ops
   rtcpbind
   local s= ssrc= nack= rtx= fec= fssrc= fpt= tw=<decls as in twcchdr>
   remote s= ssrc= nack= tw= pli=
+  pw …                                      as `w` for a chain with a pacing member (`ccpaced:<init>:<min>:<max>`: cc with the
+                                            default pacer): prints `pret err=` instead of `ret n= err=`
   w s= <header fields> pl= bn= bf= if=      application RTP write; bf/if: the bottom writer fails the
                                             application packet / the packets injected during this Write
   r s= <header fields> pl= trunc= ok= err= bn=   RTP read: wire bytes (truncated to `trunc` if ≥ 0)
@@ -60,6 +62,9 @@ def parseMember (s : String) : Option (Option Kind) :=
   | ["stats"] => some (some .stats) | ["pdsend"] => some (some .pdsend)
   | ["pdrecv"] => some (some .pdrecv) | ["pli"] => some (some .pli) | ["cc"] => some (some .cc)
   | ["fail"] => some none
+  | ["ccpaced", a, b, c] => match a.toNat?, b.toNat?, c.toNat? with   -- cc with the default pacer, bitrates init:min:max
+    | some _, some _, some _ => some (some .cc)
+    | _, _, _ => none
   | ["fec", a, b] => match a.toNat?, b.toNat? with
     | some nm, some nf => some (some (.fec nm nf))
     | _, _ => none
@@ -145,7 +150,7 @@ def step (st : St) (ts : List String) : St × List String :=
               if isL then { c with unbindL := c.unbindL + 1 } else { c with unbindR := c.unbindR + 1 }
           | _ => id
         ({ st with world := unbindAll us st.world }, [])
-    | "w" =>
+    | "w" | "pw" =>   -- `pw`: delivery may be asynchronous (a pacing member); the value n is the pacer's own, not compared
       match getNat fs "s", parseHeader fs, (lookup fs "pl").bind hexBytes, getInt fs "bn", parseBool fs "bf", parseBool fs "if" with
       | some s, some h, some pl, some bn, some bf, some ifl =>
         match st.locals.lookup s with
@@ -157,7 +162,7 @@ def step (st : St) (ts : List String) : St × List String :=
           let r := writeVia bottom wrappers .app { hdr := h, payload := pl } st.world 0
           let outs := (appCalls r.2.1).map fun p =>
             s!"b hdr={TwccHdr.showHdr (some p.hdr)} pad={p.hdr.paddingSize} pl={showHex p.payload}"
-          ({ st with world := r.1 }, outs ++ [s!"ret n={r.2.2.1} err={showErrs r.2.2.2}"])
+          ({ st with world := r.1 }, outs ++ [if op == "pw" then s!"pret err={showErrs r.2.2.2}" else s!"ret n={r.2.2.1} err={showErrs r.2.2.2}"])
       | _, _, _, _, _, _ => bad
     | "r" =>
       match getNat fs "s", parseHeader fs, (lookup fs "pl").bind hexBytes, getInt fs "trunc", parseBool fs "ok",
